@@ -23,6 +23,11 @@ CHECKS = {
    text="Seeded search over schedules: small goroutine x channel-operation scenarios (chanscript, compiled by the tree's compiler) run in a simulated Node event loop under seeded choice tapes (select picks, time-slice breaks, clock steps, timer order and lateness, suspensions); every observed outcome must be a member of the outcome set obtained by exhaustively exploring an independent reference model of Go channel semantics for that scenario. Sampling, not proof: a clean batch is evidence.",
    note="Trusted: the reference model (written from the Go spec), the simulated event loop's environment contract (timers never early, HTML/Node ordering guarantee), node's vm module. sync/time natives cannot be compiled in this sandbox and are not covered.",
    technique="deterministic simulation (seeded event-loop simulator + choice tape) with model-based outcome membership"),
+ "C11": dict(
+   category="exploration", design_ref="DESIGN.md §4 C11, Appendix A",
+   text="Event-loop callback facet only: exposed Go functions are invoked by the simulated event loop at seeded instants (between any two scheduler turns, while goroutines are parked in channel queues), performing channel operations directly, spawning goroutines or echoing arguments; the reference model extended with a callback actor decides every outcome: an enabled operation takes effect, one that would block yields the documented error and has no effect at all. Also: stable identity of an exposed function, deadlock report switched off by exposing a function and by nothing else. The type-directed conversion tables are pure functions of the value and are not decided.",
+   note="Trusted: reference model, simulator environment contract. Uncaught goroutine panics are not generated in callback scenarios (who receives an exception escaping a goroutine that runs on a callback's JavaScript stack is environment behaviour). Conversion tables / UTF-16 transcoding / typed arrays: not decided by this check.",
+   technique="deterministic simulation (seeded event loop injecting JavaScript->Go callbacks) with model-based outcome membership"),
 }
 
 def main():
